@@ -71,6 +71,11 @@ func initModels() {
 			return f(x, p, cc, args), true
 		}}
 	}
+	loud := func(f func(x *Exec, p *Path, cc *ssa.CallCommon, a []Val) []Val) *model {
+		return &model{fn: func(x *Exec, p *Path, site ssa.Instruction, cc *ssa.CallCommon, args []Val) ([]Val, bool) {
+			return f(x, p, cc, args), true
+		}}
+	}
 	rt := func(cc *ssa.CallCommon, i int) types.Type { return cc.Signature().Results().At(i).Type() }
 	models["(time.Time).UTC"] = pure(func(x *Exec, p *Path, cc *ssa.CallCommon, a []Val) []Val { return []Val{scalar(rt(cc, 0), a[0].S)} })
 	models["(time.Time).Local"] = models["(time.Time).UTC"]
@@ -134,7 +139,7 @@ func initModels() {
 		x.e.ufun("status_text", "(Int) "+x.e.strSort())
 		return []Val{scalar(rt(cc, 0), "(status_text "+a[0].S+")")}
 	})
-	models["errors.Is"] = pure(func(x *Exec, p *Path, cc *ssa.CallCommon, a []Val) []Val {
+	models["errors.Is"] = loud(func(x *Exec, p *Path, cc *ssa.CallCommon, a []Val) []Val {
 		x.e.ufun("errors_is", "(Int Int Int Int) Bool")
 		x.e.note("errors.Is is an uninterpreted relation on error values")
 		return []Val{scalar(rt(cc, 0), "(errors_is "+a[0].Tag+" "+a[0].S+" "+a[1].Tag+" "+a[1].S+")")}
